@@ -192,7 +192,7 @@ pub fn run(ctx: &Ctx, acc: &mut Acc) {
                 let sys = ReaderSys { rd, m: model_for(front, &f, &refbytes), oplist: &ops };
                 let mut viols = Vec::new();
                 let mut labels = Vec::new();
-                let st = bfs::explore(sys, 400_000, |op, l| labels.push(format!("{front:?}:{}:{l}", op.split(':').next().unwrap_or(op))), |h, c, d| viols.push((h, c, d)));
+                let st = bfs::explore(sys, 60_000, |op, l| labels.push(format!("{front:?}:{}:{l}", op.split(':').next().unwrap_or(op))), |h, c, d| viols.push((h, c, d)));
                 for l in labels {
                     acc.outcome(l);
                 }
